@@ -84,10 +84,53 @@ def window(o1: int, e1: int, h1: int, o2: int, e2: int, h2: int, order: bool, o3
     return hx.check(inputs, obs, exp, "a T-flagged request is rejected (5012, not delivered) iff (origin, end-to-end id) is among the last `size` answers to that origin")
 
 
+def window_step(w0: int, w1: int, a1: int, a2: int, ep: int, t: bool) -> bool:
+    """
+    pre: w0 == P["w0"] and 0 <= w1 < 3 and 0 <= a1 < 3 and 0 <= a2 < 3 and 0 <= ep < 3
+    post: _
+    """
+    hx.begin()
+    from collections import deque
+    size = P["size"]
+    w1, a1, a2, ep = (hx.concretize_range(x, 0, 3) for x in (w1, a1, a2, ep))
+    inputs = (w0, w1, a1, a2, ep, t)
+    try:
+        b = B.Bench(n_peers=1)
+        n, app = b.node, b.apps[0]
+        n.retransmit_queue_size = size
+        c, s = b.make_ready(b.peers[0])
+        pre = [E2E[P["w0"]], E2E[w1]][:size]
+        n._sent_answers[ORIGINS[0].encode()] = deque(pre, maxlen=size)         # any reachable window of origin 0 (directly constructed)
+        win = list(pre)
+        for k, e in ((1, a1), (2, a2)):
+            b.inject(c, _req(k, 0, e))
+            app.send_answer(app.generate_answer(app.requests[-1], result_code=2001))
+            win.append(E2E[e])
+            del win[:-size]
+        drain(c)
+        before = len(app.requests)
+        b.inject(c, _req(9, 0, ep, t=bool(t)))
+        out = B.summarize(drain(c))
+        obs = (len(app.requests) - before, [(x[3], x[5]) for x in out], list(n._sent_answers[ORIGINS[0].encode()]))
+    except Exception as e:
+        return hx.fail(inputs, "raised %s: %s" % (type(e).__name__, str(e)[:80]))
+    dup = bool(t) and E2E[ep] in win
+    exp = ((0, [(109, 5012)]) if dup else (1, [])) + (win + ([E2E[ep]] if dup else []),)
+    if dup:
+        w2 = win + [E2E[ep]]
+        del w2[:-size]
+        exp = (0, [(109, 5012)], w2)
+    return hx.check(inputs, obs, exp, "the window is the last `size` answered ids (repeats included); the probe is rejected iff T is set and its id is in it")
+
+
 def specs(tier, seed, carve):
     q = tier == "quick"
     out = []
     ne = 2
+    for size in (1, 2):
+        for w0 in range(3):
+            out.append(dict(id="window_step/size%d/w%d" % (size, w0), fn="window_step", params={"size": size, "w0": w0}, timeout=900,
+                            bound="window of size %d constructed directly with every content from a 3-id pool, two further answered requests with symbolic ids (repeats included), then the probe with symbolic id and T flag" % size))
     for size in ((1, 2) if q else (1, 2, 3)):
         for o1 in (0, 1):
             for e1 in range(ne):
